@@ -197,16 +197,21 @@ Definition trim_space (l : bytes) : bytes :=
   let a := trim_left (length l) l in rev (trim_left_rev (length a) (rev a)).
 
 (* strconv.ParseUint(s, 10, 64) *)
-Fixpoint all_digits (l : bytes) : bool := match l with [] => true | c :: r => is_digit c && all_digits r end.
-Fixpoint digits_val (l : bytes) (v : Z) : Z := match l with [] => v | c :: r => digits_val r (v * 10 + Z.of_N (c - 48)) end.
 Inductive uintres := UOk (n : Z) | USyntax | URange.
-Definition parse_uint (l : bytes) : uintres :=
+(* the digit loop of strconv.ParseUint: the first offending byte decides (a non-digit -> syntax error,
+   n >= cutoff or n*10+d > MaxUint64 -> range error) *)
+Fixpoint parse_uint_go (l : bytes) (n : Z) : uintres :=
   match l with
-  | [] => USyntax
-  | _ => if all_digits l then
-           let v := digits_val l 0 in if v <? 18446744073709551616 then UOk v else URange
-         else USyntax
+  | [] => UOk n
+  | c :: r =>
+      if is_digit c then
+        if 1844674407370955162 <=? n then URange else
+        let n1 := n * 10 + Z.of_N (c - 48) in
+        if 18446744073709551615 <? n1 then URange else parse_uint_go r n1
+      else USyntax
   end.
+Definition parse_uint (l : bytes) : uintres :=
+  match l with [] => USyntax | _ => parse_uint_go l 0 end.
 (* int(n) for a uint64 n *)
 Definition int_of_uint (n : Z) : Z := if n <? 9223372036854775808 then n else n - 18446744073709551616.
 
@@ -324,7 +329,6 @@ Record msg := { m_args : list bytes; m_kind : ckind }.
 
 Inductive rm_res :=
 | RM (msgs : list msg) (buf : bytes) (err : option cerr)
-| RMAbort            (* `return nil, errInvalidHTTP`: messages of this call dropped, buf untouched *)
 | RMPanic
 | RMFuel.
 
@@ -343,7 +347,7 @@ Fixpoint rm_loop (parse : bytes -> cres) (fuel : nat) (data : bytes) : rm_res :=
           | CFuel => RMFuel
           | CComplete args k rest =>
               match k, args with
-              | KHttp, [] => RMAbort
+              | KHttp, [] => RM [] data (Some (EHttp 0))      (* err = errInvalidHTTP; break *)
               | _, _ =>
                   match rm_loop parse f rest with
                   | RM ms b e => RM (match args with [] => ms | _ => {| m_args := args; m_kind := k |} :: ms end) b e
@@ -360,7 +364,6 @@ Definition rm_step (parse : bytes -> cres) (buf chunk : bytes) : rm_res :=
 Inductive conn_res :=
 | Open (msgs : list msg) (buf : bytes)
 | Closed (msgs : list msg) (e : cerr)
-| Aborted (msgs : list msg)
 | Crashed
 | NoFuel.
 Fixpoint conn_run (parse : bytes -> cres) (chunks : list bytes) (buf : bytes) (acc : list msg) : conn_res :=
@@ -370,7 +373,6 @@ Fixpoint conn_run (parse : bytes -> cres) (chunks : list bytes) (buf : bytes) (a
       match rm_step parse buf c with
       | RM ms b None => conn_run parse rest b (acc ++ ms)
       | RM ms b (Some e) => Closed (acc ++ ms) e
-      | RMAbort => Aborted acc
       | RMPanic => Crashed
       | RMFuel => NoFuel
       end
